@@ -321,3 +321,49 @@ func HConcurrent() {
 	inspect(k1, content, e1 == nil, "k1: ")
 	nd.Reach("end")
 }
+
+// cancelCtx: a context that reports cancellation from its n-th Err() poll on.
+type cancelCtx struct {
+	context.Context
+	polls, at int
+}
+
+func (c *cancelCtx) Err() error {
+	c.polls++
+	if c.polls > c.at {
+		return context.Canceled
+	}
+	return nil
+}
+
+// HCancelPut: the caller's context is cancelled at any moment of a Put or of a streaming write:
+// whatever the call returns, the key is absent or complete.
+func HCancelPut() {
+	st := initStore(0)
+	content := nd.Bytes("c", nd.Param("CLEN", 3))
+	key := theKey()
+	ctx := &cancelCtx{Context: context.Background(), at: nd.Choose("cancelat", nd.Param("POLLS", 6))}
+	var err error
+	if nd.Choose("stream", 2) == 0 {
+		err = st.Put(ctx, key, content)
+	} else {
+		w, commit, e := st.PutStream(ctx)
+		err = e
+		if e == nil {
+			w.Write(content[:1])
+			if ctx.Err() != nil {
+				commit("") // the caller abandons a cancelled write
+				err = ctx.Err()
+			} else {
+				w.Write(content[1:])
+				err = commit(key)
+			}
+		}
+	}
+	if err == nil {
+		nd.Reach("succeeded")
+	} else {
+		nd.Reach("cancelled")
+	}
+	inspect(key, content, err == nil, "")
+}
